@@ -17,13 +17,17 @@ ID = "C04"
 LEAN_MODULES = ["FaxVerif.C04.Theorems"]
 LEAN_SOURCES = ["FaxVerif/C04", "FaxVerif/Gen", "FaxVerif/Cpp", "FaxVerif/Linq"]
 DRIVER = cgroup.DRIVER
-SETUP_MODULES = ["FaxVerif.Cpp.Json", "FaxVerif.Gen.Render", "FaxVerif.C03.Spec", "FaxVerif.Cpp.Check"]  # what the driver imports
+SETUP_MODULES = cgroup.DRIVER_IMPORTS  # what the driver imports
 THEOREMS = [
     "FaxVerif.C04.first_idiom",
     "FaxVerif.C04.and_lazy",
     "FaxVerif.C04.lazy_skips_fault",
     "FaxVerif.C04.where_shields",
     "FaxVerif.C04.pure_faults_equal",
+    "FaxVerif.C04.or_lazy",
+    "FaxVerif.C04.and_lazy2",
+    "FaxVerif.C04.ite_lazy",
+    "FaxVerif.C04.guarded_second",
 ]
 RULE = (
     "type-directed random queries that contain at least one of First / and / or / if-else / nested Where (rejection sampling over "
@@ -40,13 +44,18 @@ LEVEL_TEXT = (
     "Lean 4 theorems about the emitted shapes, for all element lists, conditions and states: First() captures exactly the first kept "
     "element and fails loudly iff the sequence is empty after its filters (first_idiom); the lowering of and / fused Where evaluates "
     "a later operand only when the earlier ones are true (and_lazy, lazy_skips_fault); code behind a rejecting Where is not executed "
-    "(where_shields); pure expressions fault exactly when the query does (pure_faults_equal). The real translator is shown to emit "
-    "these shapes by C01's text tie; the fault behaviour of the implementation's own output is compared with the query's on "
-    "generated events (differential)."
+    "(where_shields); pure expressions fault exactly when the query does (pure_faults_equal); `a or b`, `a and b` and "
+    "`x if c else y` inside expressions, lowered to `r = a; if (!r) {…}` / `r = a; if (r) {…}` / `if (c) {…} else {…}`, run the "
+    "second operand's / the other arm's statements — whatever they are, a First() with its throw included — exactly when Python "
+    "evaluates them (or_lazy, and_lazy2, ite_lazy). The real translator is shown to emit the First / fused-Where shapes by C01's "
+    "text tie, and the lazy-operator shapes by a recogniser (C04/Shapes.lean `countShapes`) run on the implementation's output "
+    "for every generated query (at least one recognised shape per and/or/if-else node of the query); the fault behaviour of the "
+    "implementation's own output is compared with the query's on generated events (differential)."
 )
 LEVEL_NOTE = (
-    "Not proved: if-else lowering and `or` lowering (differential only); First nested inside arithmetic (the consumer is emitted inside "
-    "the guarded block) is differential only. Listed findings: First over a Select that ignores its variable never fails; First over a "
+    "The lazy-operator theorems are about the emitted shape with an arbitrary operand body; that the body is the translation of the "
+    "operand (and not hoisted in front of the guard) is differential only, as is First nested inside arithmetic (the consumer is "
+    "emitted inside the guarded block). Listed findings: First over a Select that ignores its variable never fails; First over a "
     "SelectMany inside a lambda is taken per outer element."
 )
 TECHNIQUE = "Lean 4 theorems on the emitted First / and-lowering / Where shapes + text tie + differential execution on fault-biased events"
@@ -71,6 +80,13 @@ def judge(c):
     a = c.answer
     if a is None or "bad" in a:
         return None
+    # every lazy operator of the query must have been lowered to the shape the theorems are about
+    ops, sh = qgen.ops_used(c.query), a.get("shapes") or {}
+    shape_hit = None
+    for k, thm in (("or", "or_lazy"), ("and", "and_lazy2"), ("if", "ite_lazy")):
+        if sh.get(k, 0) < ops.get(k, 0) and not cgroup.needs_gxx(c):
+            shape_hit = {"kind": "broken", "what": f"lowering of `{k}`: the shape of C04.{thm} is found {sh.get(k, 0)} time(s) in the emitted code for {ops.get(k, 0)} `{k}` node(s) of the query",
+                    "model": {k: ops.get(k, 0)}, "observed": r["query"]}
     for i, (ex, de) in enumerate(zip(cgroup.exec_outcomes(c), a["denote"])):
         fe, fd = cgroup.fault_class(ex), cgroup.fault_class(de)
         if fe == fd == "ok":
@@ -86,7 +102,7 @@ def judge(c):
                 else f"on event {i} the generated code fails ({ex.get('fault')}) although the query is defined there (spurious fault: something the query does not evaluate is executed)"
             )
             return {"what": what, "observed": {"event": i, "generated_code": ex, "query_denotes": de, "body": r["query"]}}
-    return None
+    return shape_hit
 
 
 def after(ctx, c):
